@@ -196,6 +196,18 @@ fn run_template(tx: &tir::Tx, label: &str, o: &mut Outcome, detail: &Value) {
             }
         }
         if s.applied == ALL_APPLIED && s.last_reduce {
+            // "fully reduced": every stage ran, so nothing may be left waiting for one - in particular no compiler
+            // built-in in a position the compiler-op walk does not visit (all schedules would then agree, wrongly)
+            let left = crate::common::canon::unresolved_tx(cur);
+            if !left.is_empty() || left.compiler_ops > 0 {
+                o.violate(
+                    Violation::new(
+                        format!("terminal-not-fully-reduced|{}|{label}", if left.compiler_ops > 0 { "compiler-op-left" } else { "parameter-left" }),
+                        format!("after {:?} the template still holds {left:?}", s.path),
+                    )
+                    .with_detail(detail.clone()),
+                );
+            }
             terminals.push((canon_tir(cur).to_string(), s.path.clone(), true));
             continue;
         }
@@ -305,7 +317,7 @@ impl Prop for C07 {
         "explicit-state search per template: states = (canonical TIR, applied stage set, last action was Reduce); transitions = the real apply_args / \
          apply_inputs / apply_fees / Node::apply(compiler) / reduce; ApplyCompilerOps is enabled iff a generic walk finds no ExpectValue / ExpectInput / \
          ExpectFees below any EvalCompiler node; the graph holds all 24 stage orders x all reduce placements (depth <= 9). Checked: every terminal \
-         state (all four stages + final reduce) is the same canonical template and no schedule fails if one succeeds; reduce(reduce(s)) = reduce(s) in \
+         state (all four stages + final reduce) holds no parameter, query, fee or compiler built-in any more and is the same canonical template and no schedule fails if one succeeds; reduce(reduce(s)) = reduce(s) in \
          every state. Templates: every tx of the corpus, 5 bases giving each compiler built-in a literal / parameter / env / local operand, and every \
          tirgen tree of depth <= 1 around a parameter / fees / query / tip_slot probe."
             .into()
